@@ -182,3 +182,39 @@ pub fn mirror_locs(r: &m::Root) -> std::collections::BTreeMap<String, (Option<Lo
     }
     out
 }
+
+/// Map-typed field of validated values (`limits.<key>.tag` / `.weight`), used for the
+/// repeated-key documents under `DuplicateKeyPolicy::{LastWins, FirstWins}`.
+pub mod gm {
+    use garde::Validate;
+    use serde::{Deserialize, Serialize};
+    #[derive(Debug, Clone, PartialEq, Deserialize, Serialize, Validate)]
+    pub struct MapRoot {
+        #[garde(length(min = 2))]
+        pub name: String,
+        #[garde(dive)]
+        pub limits: std::collections::BTreeMap<String, super::g::Leaf>,
+    }
+}
+
+pub mod vm {
+    use serde::{Deserialize, Serialize};
+    use validator::Validate;
+    #[derive(Debug, Clone, PartialEq, Deserialize, Serialize, Validate)]
+    pub struct MapRoot {
+        #[validate(length(min = 2))]
+        pub name: String,
+        #[validate(nested)]
+        pub limits: std::collections::BTreeMap<String, super::v::Leaf>,
+    }
+}
+
+pub mod mm {
+    use serde::Deserialize;
+    use serde_saphyr::Spanned;
+    #[derive(Debug, Deserialize)]
+    pub struct MapRoot {
+        pub name: Spanned<String>,
+        pub limits: std::collections::BTreeMap<String, super::m::Leaf>,
+    }
+}
